@@ -147,6 +147,12 @@ VARIANTS = {
 }
 
 
+# the top module: two leaf imports and a function with eleven parameters (symbols with more than ten attributes on one level)
+TOP = ('from src.l1 import h as h1\nfrom src.l2 import h as h2\n\n'
+	'def wide(p0: int, p1: str, p2: int, p3: str, p4: int, p5: str, p6: int, p7: str, p8: str, p9: int, p10: float) -> str:\n\treturn p1\n\n'
+	'def f() -> None:\n\ta = h1()\n\tb = h2()\n\tw = wide(1, "a", 2, "b", 3, "c", 4, "d", "e", 5, 1.0)\n')
+
+
 def history_twin(tier: str, seed: int, skip_transitive: bool = True) -> tuple[int, list[dict]]:
 	"""Bounded histories on graphs *without* indirect imports (the transitive case is the listed finding F-C05-a):
 	top imports two leaves; operations edit(leaf, variant) / run / clear-cache; every run is compared with a cold run of the same sources.
@@ -156,24 +162,31 @@ def history_twin(tier: str, seed: int, skip_transitive: bool = True) -> tuple[in
 	fails: list[dict] = []
 	runs = 0
 	n_hist = 2 if tier == 'quick' else 8
-	for hno in range(n_hist):
+	scripted = [[('edit', 'l1.py', 1), ('edit', 'l2.py', 0), ('run',)]]  # swap the contents of the two leaves: same set of hashes, different assignment
+	for hno in range(n_hist + len(scripted)):
 		p = Project()
+		script = scripted[hno] if hno < len(scripted) else None
 		try:
 			state = {'l1.py': 0, 'l2.py': 1}
 			for k, v in state.items():
 				p.write(k, VARIANTS['leaf'][v])
-			p.write('top.py', 'from src.l1 import h as h1\nfrom src.l2 import h as h2\n\ndef f() -> None:\n\ta = h1()\n\tb = h2()\n')
+			p.write('top.py', TOP)
 			ops = []
-			for step in range(3 if tier == 'quick' else 5):
-				op = rnd.choice(['edit', 'edit', 'run', 'clear'])
+			p.run(force=True)
+			runs += 1
+			ops.append('run')
+			for step in range(len(script) if script else (3 if tier == 'quick' else 5)):
+				op = script[step][0] if script else rnd.choice(['edit', 'edit', 'run', 'clear'])
 				if op == 'edit':
-					leaf = rnd.choice(list(state))
-					state[leaf] = rnd.randrange(len(VARIANTS['leaf']))
+					leaf = script[step][1] if script else rnd.choice(list(state))
+					state[leaf] = script[step][2] if script else rnd.randrange(len(VARIANTS['leaf']))
 					p.write(leaf, VARIANTS['leaf'][state[leaf]])
 					ops.append(f'edit {leaf}={state[leaf]}')
 				elif op == 'clear':
 					p.clear_cache()
 					ops.append('clear-cache')
+				if script and op != 'run':
+					continue
 				r = p.run(force=True)
 				runs += 1
 				warm = p.outputs() if r.returncode == 0 else {'<error>': r.stderr[-200:]}
@@ -183,7 +196,7 @@ def history_twin(tier: str, seed: int, skip_transitive: bool = True) -> tuple[in
 				try:
 					for k, v in state.items():
 						q.write(k, VARIANTS['leaf'][v])
-					q.write('top.py', 'from src.l1 import h as h1\nfrom src.l2 import h as h2\n\ndef f() -> None:\n\ta = h1()\n\tb = h2()\n')
+					q.write('top.py', TOP)
 					rq = q.run(force=True)
 					runs += 1
 					cold = q.outputs() if rq.returncode == 0 else {'<error>': rq.stderr[-200:]}
